@@ -14,7 +14,7 @@
 From Coq Require Import List NArith Bool.
 Import ListNotations.
 Require Import Aiuti.Buffer Aiuti.BufferInv Aiuti.BufferJoin Aiuti.BufferTime Aiuti.BufferQuiet
-               Aiuti.Case_Buffer Aiuti.Case_C08.
+               Aiuti.Case_Buffer Aiuti.Case_C08 Aiuti.BufferMon8 Aiuti.BufferMon8B.
 
 (* For EVERY event list, in the flattened trace:
    (a) every call of the wrapped function gets a non-empty set;
@@ -56,6 +56,16 @@ Theorem serial_monitor_sound :
     (forall pre c set t rest, tr = pre ++ FnStart c set t :: rest -> c = n_starts pre).
 Proof. exact ok_serial_sound. Qed.
 Print Assumptions serial_monitor_sound.
+
+(* COMPLETENESS of the whole monitor.  For EVERY timeout and EVERY event list (any producers, waits,
+   failures, shutdown, foreign halves), the trace monitor Case_C08.ok — serial part AND the timed walk
+   (not-early, exact clean burst, forced-flush bookkeeping, tie accounting) — accepts the model's own
+   trace.  So on any case where the implementation's trace equals the model's trace the monitor cannot
+   raise an alarm: a rejection always means that the implementation differs from the model. *)
+Theorem monitor_complete :
+  forall (T : N) (evs : list event), Case_C08.ok (Case T evs (trace T evs)) = true.
+Proof. exact c08_monitor_complete. Qed.
+Print Assumptions monitor_complete.
 
 Theorem monitor_implies_serial : forall c, Case_C08.ok c = true -> ok_serial c = true.
 Proof. exact ok_implies_serial. Qed.
